@@ -255,7 +255,7 @@ def main(argv=None):
         timings = json.loads((VERIF / "units" / "timings.json").read_text())
     except Exception:
         timings = {}
-    qmax = float(os.environ.get("VERIF_QUICK_MAX_S", "220"))
+    qmax = float(os.environ.get("VERIF_QUICK_MAX_S", "300"))
     selected = {}
     for u in units.values():
         hs = [h for h in u.harnesses if prop in h.props and h.tier != "manual" and (tier == "thorough" or h.tier == "quick")]
@@ -325,7 +325,7 @@ def main(argv=None):
     # over the groups so that every backend keeps its most important harnesses; what does not fit runs in the thorough tier.
     # (vp check stops a quick command after 900 s; 16 cores, builds take 1-2 min.)
     if tier == "quick" and not only:
-        budget = float(os.environ.get("VERIF_QUICK_BUDGET_S", "3200"))
+        budget = float(os.environ.get("VERIF_QUICK_BUDGET_S", "5000"))
         cost = lambda un, h: timings.get(f"{un}::{h.name}", 120.0)
         queues = {g: [(u.name, h) for u in us for h in selected[u.name]] for g, us in groups.items()}
         # within a group keep the round-robin order over its units
